@@ -209,6 +209,7 @@ func main() {
 
 	siteHits = make([]int64, simrt.NSites+1)
 	initWorlds()
+	startStallDetector()
 
 	if *replay != "" {
 		if b, err := os.ReadFile(*replay); err == nil {
